@@ -279,10 +279,24 @@ pub fn run(cfg: &Cfg) -> Stats {
     // 1. collect values with their routes
     let bucket: Mutex<Vec<Item>> = Mutex::new(vec![]);
     let cap = cfg.pick(30_000usize, 400_000usize);
-    let collected = values::for_each_value(cfg, "c12", &|loc, case, _st, _mode| {
+    let mut collected = values::for_each_value(cfg, "c12", &|loc, case, st, _mode| {
         // keep a deterministic subset: decided by the hash of the case
         let hh = hash_str(&case.to_string());
-        let keep = values::case_route(case) != "bytes" || hh % 8 == 0 || !loc.extensions.other.is_empty();
+        // the CLDR keys / values after maximize / minimize (16 000 x 3 values): each is compared with
+        // the re-parse of its printed form right here, one in eight also joins the pools
+        let likely_route = case["ops"].as_array().map_or(false, |o| !o.is_empty() && o.len() <= 2 && o.iter().all(|x| matches!(x["op"].as_str(), Some("Maximize") | Some("Minimize"))));
+        if likely_route {
+            let a = item(loc.clone(), case.clone());
+            if let Ok(Ok(tw)) = guard(|| Locale::from_bytes(a.s.as_bytes())) {
+                let twin = item(tw, bytes_case(a.s.as_bytes()));
+                if twin.s == a.s {
+                    st.class("twin: maximized / minimized CLDR key vs re-parse of its printed form");
+                    check_pair(&a, &twin, st, Count::No);
+                    check_pair(&twin, &a, st, Count::No);
+                }
+            }
+        }
+        let keep = (values::case_route(case) != "bytes" && !likely_route) || hh % 8 == 0 || !loc.extensions.other.is_empty();
         if keep {
             let mut b = bucket.lock().unwrap();
             b.push(item(loc.clone(), case.clone()));
@@ -299,7 +313,9 @@ pub fn run(cfg: &Cfg) -> Stats {
     let pool = cfg.pick(300usize, 1500usize);
     let mut total = Stats::new();
     total.extra.insert("values_collected".into(), json!(items.len()));
-    total.extra.insert("sources".into(), json!(collected.exhaustive_subspaces));
+    total.extra.insert("sources".into(), json!(std::mem::take(&mut collected.exhaustive_subspaces)));
+    // what the collector judged itself (the maximize / minimize twins) and the panics it netted
+    total = total.merge(collected);
     let pools: Vec<&[Item]> = items.chunks(pool).collect();
     let npairs: u64 = pools.iter().map(|p| (p.len() * p.len()) as u64).sum();
     let s = pools
